@@ -115,6 +115,13 @@ def scenarios(tier, rng):
     # the publishing os.replace itself fails (EACCES: a reader holds the file on some platforms; EIO)
     for errn in ("EACCES", "EIO"):
         out.append(dict(_cache_sc(rng, 4, 3, 1, 40), fault_at_replace=errn))
+    # documents written by a sync (job level, project level, the project document), into an absent / empty / populated
+    # destination document
+    for level, size, ds in (("job", "absent", "bykey"), ("job", "empty", "update"), ("project", "absent", "update"),
+                            ("project", "empty", "bykey"), ("projdoc", "absent", "bykey"), ("projdoc", "empty", "update")):
+        # (a populated destination is not generated: sync then keeps a backup copy '<document>~' during the merge,
+        # which a crash leaves next to the stray temp file - sync's own rollback protocol, C14, not a torn document)
+        out.append({"kind": "syncdoc", "level": level, "size": size, "docsync": ds, "seed": rng.randrange(1 << 30)})
     out.append(_doc_sc(rng, "jobdoc", "small", "jobclear"))
     out.append(_doc_sc(rng, "jobdoc", "mid", "jobreset"))
     out.append(dict(_doc_sc(rng, "jobdoc", "small", "setitem"), mt=False))
@@ -343,6 +350,47 @@ def build(sc, d, mutant=None):
                 for op in ops:
                     op()
         b.fn = flush_fn
+    elif kind == "syncdoc":
+        # a document written by a SYNC: the source document holds exactly one key, so the merge is one logical write of
+        # the destination document (absent / empty / populated with other keys)
+        from signac import sync as S
+
+        src = signac.init_project(os.path.join(d, "srcproj"))
+        spx = {"a": 7, "tag": "sync"}
+        val = {"v": _filler(rng, 40), "n": [1, 2, {"k": None}]}
+        r = random.Random(sc["seed"])
+        old = make_doc(r, sc["size"])
+        if sc["level"] == "projdoc":
+            src.document["only"] = val
+            fn_doc = proj.fn(signac.Project.FN_DOCUMENT)
+            _write_json(fn_doc, old)
+            reader = proj_reader
+            sj = src.open_job(spx).init()
+            proj.open_job(spx).init()
+            fn = lambda: proj.sync(src, doc_sync=S.DocSync.update if sc["docsync"] == "update" else S.DocSync.ByKey())  # noqa: E731
+        else:
+            sj = src.open_job(spx).init()
+            sj.document["only"] = val
+            dj = proj.open_job(spx).init()
+            fn_doc = dj.fn(Job.FN_DOCUMENT)
+            _write_json(fn_doc, old)
+            reader = job_reader(dj.id)
+            dst_handle = signac.Project(d).open_job(id=dj.id)
+            src_handle = signac.Project(src.path).open_job(id=sj.id)
+            if sc["level"] == "job":
+                fn = lambda: dst_handle.sync(src_handle, doc_sync=S.DocSync.update if sc["docsync"] == "update" else S.DocSync.ByKey())  # noqa: E731
+            else:
+                fn = lambda: proj.sync(src, doc_sync=S.DocSync.update if sc["docsync"] == "update" else S.DocSync.ByKey())  # noqa: E731
+        want = dict({} if old == ABSENT else old, only=val)
+        b.targets.append({"path": rel(fn_doc), "fmt": "json", "old": old, "want": want})
+        b.api.append(reader)
+
+        def sync_fn():
+            import contextlib
+            import io
+            with contextlib.redirect_stdout(io.StringIO()):
+                fn()
+        b.fn = sync_fn
     elif kind == "cache":
         pad = sc["pad"]
 
